@@ -11,6 +11,11 @@ NPROC = os.cpu_count() or 8
 SAN_FLAGS = ("-fsanitize=address,signed-integer-overflow,shift,integer-divide-by-zero,bounds,pointer-overflow,"
              "float-cast-overflow,vla-bound,unreachable,return -fno-sanitize-recover=all -fno-omit-frame-pointer")
 ASAN_ENV = "detect_leaks=0:allocator_may_return_null=1:max_allocation_size_mb=512:abort_on_error=1"
+# development aid (tools/coverage.py): with VERIF_COVERAGE=<dir> every clang build is also instrumented for source coverage, the
+# harness binaries are kept in <dir>/bin and the raw profiles of every harness process in <dir>/raw
+COVERAGE = os.environ.get("VERIF_COVERAGE")
+if COVERAGE:
+    SAN_FLAGS += " -fprofile-instr-generate -fcoverage-mapping"
 
 _scratch = None
 
@@ -77,6 +82,10 @@ def build_harness(name, srcdir, lib, cxx="clang++", extra_flags=SAN_FLAGS, opt="
     r = sh(f"{cxx} {opt} -g {extra_flags} {' '.join(o for o, _ in results)} {lib} -lstdc++fs -o {out}")
     if r.returncode:
         raise MachineryError(f"harness {name} does not link:\n" + r.stderr[-4000:])
+    if COVERAGE and "profile-instr" in extra_flags:
+        os.makedirs(os.path.join(COVERAGE, "bin"), exist_ok=True)
+        shutil.copy(out, os.path.join(COVERAGE, "bin", f"{name}-{tag}-{os.getpid()}"))
+        open(os.path.join(COVERAGE, "bin", f"{name}-{tag}-{os.getpid()}.src"), "w").write(srcdir)
     return out
 
 
@@ -166,6 +175,9 @@ def run_isolated(cmd, env=None, timeout=3600, max_crashes=60, cwd=None, skip_fla
     e = dict(os.environ)
     e["ASAN_OPTIONS"] = ASAN_ENV
     e["UBSAN_OPTIONS"] = "print_stacktrace=0"
+    if COVERAGE:
+        os.makedirs(os.path.join(COVERAGE, "raw"), exist_ok=True)
+        e["LLVM_PROFILE_FILE"] = os.path.join(COVERAGE, "raw", "%p-%m.profraw")
     if env:
         e.update(env)
     start, mism, crashes, summary, t0 = 0, [], 0, {}, time.time()
